@@ -49,10 +49,14 @@ class Ctx:
         self.tier = tier
         self.seed = seed
         self.t0 = time.time()
-        self.work = os.path.join(VERIF, ".work", pid)
+        # VERIF_OUT (seed testing only): keep work files, replays and evidence of a run against a scratch copy of the
+        # repository (VERIF_REPO) apart from those of the registered checks
+        out = os.environ.get("VERIF_OUT") or VERIF
+        self.out_root = out
+        self.work = os.path.join(out, ".work", pid)
         shutil.rmtree(self.work, ignore_errors=True)
         os.makedirs(self.work, exist_ok=True)
-        self.replay_dir = os.path.join(VERIF, "replays", pid)
+        self.replay_dir = os.path.join(out, "replays", pid)
         os.makedirs(self.replay_dir, exist_ok=True)
         self.violations: list[dict] = []
         self.known_hits: dict[str, dict] = {}
@@ -168,8 +172,8 @@ class Ctx:
             "wall_s": round(time.time() - self.t0, 2),
             "violations": len(self.violations),
         }
-        os.makedirs(os.path.join(VERIF, "evidence"), exist_ok=True)
-        with open(os.path.join(VERIF, "evidence", self.pid + ".json"), "w") as f:
+        os.makedirs(os.path.join(self.out_root, "evidence"), exist_ok=True)
+        with open(os.path.join(self.out_root, "evidence", self.pid + ".json"), "w") as f:
             json.dump(ev, f, indent=1, default=jdefault)
         for d in self.drift[:20]:
             print(f"DRIFT property={self.pid} {d}")
